@@ -1,6 +1,6 @@
 (* C35  Clang-AST import yields a consistent program model (partial: the declaration map).
    Statements only; every proof is `exact <lemma>`. *)
-From CV Require Import Base.Bytes Clang.Defs Clang.Proofs.
+From CV Require Import Base.Bytes Clang.Defs Clang.Proofs Clang.SeqProofs.
 Local Open Scope N_scope.
 
 (* for every op sequence and address: mDeclMap holds the FIRST declaration of the address *)
@@ -46,6 +46,22 @@ Theorem C35_refs_resolved_before_partial s o a d0 toks :
             lookup a (c_pending (step s o)) = None.
 Proof. exact (decl_step_resolves_waiting s o a d0 toks). Qed.
 Print Assumptions C35_refs_resolved_before_partial.
+
+(* refs_resolved for whole sequences: with a fresh token per op (as the import creates them), every
+   reference of the sequence ends carrying the FIRST declaration of its address, whether that
+   declaration stands before or after the reference (for a variable: the variable and the varId
+   of its name token), and is still waiting in mNotFound when the address is never declared *)
+Theorem C35_refs_resolved ops a t :
+  fresh ops -> In (CRef a t) ops ->
+  match first_decl a ops with
+  | Some d => bound d (c_tok (run_cops ops)) t
+  | None => pend a t (run_cops ops)
+  end.
+Proof. exact (refs_resolved ops a t). Qed.
+Print Assumptions C35_refs_resolved.
+
+Example C35_fresh_inhabited : fresh [CRef 7 0; CVar 7 1; CRef 7 2; CVar 7 3; CScope 8; CRef 9 4].
+Proof. unfold fresh. cbn. repeat constructor; cbn; intuition discriminate. Qed.
 
 (* non-vacuity: use before declaration, duplicate address, scope declaration in between *)
 Example C35_use_before_decl :
